@@ -18,6 +18,7 @@ mod ops10;
 mod ops11;
 mod ops12;
 mod ops13;
+mod ops14;
 
 fn main() {
     std::panic::set_hook(Box::new(|_| {}));
